@@ -362,6 +362,8 @@ struct NSim {
     /// re-attached (previously verified) blocks seen in reorgs
     reattached: u64,
     selftest: String,
+    /// whether the `tdinfo` line of this case has been written
+    td_emitted: bool,
 }
 
 /// the full MMR node array (post-order positions) over a digest list: the property's own definition of what
@@ -395,6 +397,7 @@ impl NSim {
             node: Some(node), builder, blocks: HashMap::new(), by_hash: HashMap::new(), hash_terms: HashMap::new(), main: vec![], reorgs: 0,
             parent: HashMap::new(), badext: Default::default(), gone: Default::default(), abandoned: vec![], reattached: 0,
             selftest: std::env::var("VERIF_C19_SELFTEST").unwrap_or_default(),
+            td_emitted: false,
         };
         s.by_hash.insert(g.hash(), 0);
         record(&g.header().digest(), "L0".into());
@@ -733,6 +736,19 @@ impl NSim {
                             };
                             format!("tip {id} root {root}")
                         }
+                        ckb_types::packed::LightClientMessageUnion::SendBlocksProof(r) if last % 10000 == 0 => {
+                            // the genesis block as the last block: there is no chain root before it, nothing can be proved
+                            // (lib.rs reply_proof): an empty proof, the default root, every requested hash missing
+                            out.count("bp-last-genesis-reply");
+                            let vh = r.last_header();
+                            if vh.parent_chain_root().as_slice() != HeaderDigest::default().as_slice() || !r.proof().is_empty() || !r.headers().is_empty() {
+                                out.oracle_fail("genesis-reply-proves-something", line);
+                            }
+                            if r.missing_block_hashes().len() != ids.len() {
+                                out.oracle_fail("blocks-proof-partition-wrong", &format!("{line}: missing {} of {}", r.missing_block_hashes().len(), ids.len()));
+                            }
+                            format!("proof - root - headers=- missing={}", r.missing_block_hashes().len())
+                        }
                         ckb_types::packed::LightClientMessageUnion::SendBlocksProof(r) => {
                             let vh = r.last_header();
                             let n = last % 10000;
@@ -755,6 +771,17 @@ impl NSim {
                                 leaves.push((leaf_index_to_pos(h.number()), h.digest()));
                             }
                             let items: Vec<HeaderDigest> = r.proof().into_iter().collect();
+                            // the partition of the request (property side, on the harness's own view of the main chain):
+                            // headers = the requested main-chain blocks in request order, missing = the other hashes in request order
+                            let want_found: Vec<u64> = ids.iter().copied().filter(|i| main_all.contains(i)).collect();
+                            let want_missing: Vec<Byte32> = ids.iter().filter(|i| !main_all.contains(i)).map(|i| hash_of(self, *i)).collect();
+                            let got_missing: Vec<Byte32> = r.missing_block_hashes().into_iter().collect();
+                            if hids != want_found || got_missing != want_missing {
+                                out.oracle_fail("blocks-proof-partition-wrong", &format!("{line}: headers {hids:?} want {want_found:?}, missing {} want {}", got_missing.len(), want_missing.len()));
+                            }
+                            if hids.iter().any(|i| i % 10000 >= n) {
+                                out.oracle_fail("served-header-not-below-last", line);
+                            }
                             // what a light client does: verify the served headers against the committed root
                             if !leaves.is_empty() {
                                 let proof = MMRProof::new(leaf_index_to_mmr_size(n - 1), items.clone());
@@ -777,6 +804,150 @@ impl NSim {
                                 }
                             }
                             format!("proof {} root {} headers={} missing={}", join(&items.iter().map(term_of).collect::<Vec<_>>(), ";"), term_of(&vh.parent_chain_root()), join(&hids, ","), r.missing_block_hashes().len())
+                        }
+                        _ => "unexpected-reply".to_string(),
+                    }
+                }
+            }
+            "tp" => {
+                // GetTransactionsProof through the real handler. A transaction code: k < 1000 = transaction k of the genesis block;
+                // 1000 + n = the cellbase of height n (the same transaction on every branch: its hash does not cover the witness,
+                // which is all that differs between siblings — asserted below); >= 1_000_000 = a hash nobody knows
+                use ckb_network::{CKBProtocolHandler, PeerIndex, SupportProtocols};
+                use ckb_types::utilities::merkle_mountain_range::{MMRProof, VerifiableHeader};
+                let last: u64 = t[1].parse().unwrap();
+                let codes = parse_list(t[2]);
+                out.count("tp");
+                let hash_of = |s: &NSim, id: u64| -> Byte32 { s.blocks.get(&id).map(|b| b.hash()).unwrap_or_else(|| ckb_hash::blake2b_256(id.to_le_bytes()).into()) };
+                let tx_hash = |s: &NSim, c: u64| -> Byte32 {
+                    if c < 1000 {
+                        s.blocks[&0].transactions().get(c as usize).map(|t| t.hash()).unwrap_or_else(|| ckb_hash::blake2b_256(c.to_le_bytes()).into())
+                    } else if c < 1_000_000 {
+                        let hs: Vec<Byte32> = s.blocks.iter().filter(|(id, _)| **id % 10000 == c - 1000 && **id != 0).map(|(_, b)| b.transactions()[0].hash()).collect();
+                        assert!(hs.windows(2).all(|w| w[0] == w[1]), "harness assumption: one cellbase transaction per height");
+                        hs.first().cloned().unwrap_or_else(|| ckb_hash::blake2b_256(c.to_le_bytes()).into())
+                    } else {
+                        ckb_hash::blake2b_256(c.to_le_bytes()).into()
+                    }
+                };
+                let hashes: Vec<Byte32> = codes.iter().map(|c| tx_hash(self, *c)).collect();
+                let content = ckb_types::packed::GetTransactionsProof::new_builder().last_hash(hash_of(self, last)).tx_hashes(hashes.clone()).build();
+                let msg = ckb_types::packed::LightClientMessage::new_builder().set(content).build();
+                let nc = lcctx::MockNetworkContext::new(SupportProtocols::LightClient);
+                let peer = PeerIndex::new(1);
+                let shared = self.node().shared.clone();
+                let ctx = nc.context();
+                let data = msg.as_bytes();
+                let res = std::panic::catch_unwind(std::panic::AssertUnwindSafe(|| {
+                    let mut protocol = ckb_light_client_protocol_server::LightClientProtocol::new(shared);
+                    runtime_handle().block_on(protocol.received(ctx, peer, data));
+                }));
+                let main_all: Vec<u64> = std::iter::once(0u64).chain(self.main.iter().copied()).collect();
+                if res.is_err() {
+                    out.oracle_fail("light-client-handler-panic", line);
+                    "panic".to_string()
+                } else if nc.has_banned(peer).is_some() {
+                    "banned".to_string()
+                } else if nc.sent_messages().borrow().is_empty() {
+                    "err".to_string()
+                } else {
+                    let (_, _, bytes) = nc.sent_messages().borrow()[0].clone();
+                    let reply = ckb_types::packed::LightClientMessage::from_compatible_slice(&bytes).expect("reply").to_enum();
+                    match reply {
+                        ckb_types::packed::LightClientMessageUnion::SendTransactionsProof(r) if r.last_header().header().into_view().hash() != hash_of(self, last) => {
+                            let id = *self.by_hash.get(&r.last_header().header().into_view().hash()).expect("tip known");
+                            if main_all.contains(&last) || Some(&id) != main_all.last() {
+                                out.oracle_fail("tip-state-reply-wrong", line);
+                            }
+                            "tip".to_string()
+                        }
+                        ckb_types::packed::LightClientMessageUnion::SendTransactionsProof(r) => {
+                            let vh = r.last_header();
+                            let n = last % 10000;
+                            let mut blocks: Vec<(u64, u64, Vec<u64>)> = vec![]; // (number, id, tx positions in reply order)
+                            let mut leaves = vec![];
+                            let mut served: Vec<Byte32> = vec![];
+                            for fb in r.filtered_blocks().into_iter() {
+                                let header = fb.header().into_view();
+                                let id = *self.by_hash.get(&header.hash()).expect("served block known");
+                                if main_all.get(header.number() as usize) != Some(&id) {
+                                    out.oracle_fail("served-header-not-on-main-chain", line);
+                                }
+                                let blk = &self.blocks[&id];
+                                let all: Vec<Byte32> = blk.transactions().iter().map(|t| t.hash()).collect();
+                                let txs: Vec<Byte32> = fb.transactions().into_iter().map(|t| t.calc_tx_hash()).collect();
+                                let pos: Vec<u64> = txs.iter().map(|h| all.iter().position(|x| x == h).map(|p| p as u64).unwrap_or(u64::MAX)).collect();
+                                if pos.contains(&u64::MAX) {
+                                    out.oracle_fail("served-transaction-not-in-block", line);
+                                }
+                                // what a light client does with a filtered block: the CBMT proof binds the transactions to the
+                                // header's transactions_root (= merkle_root([raw transactions root, witnesses root]))
+                                let indices: Vec<u32> = fb.proof().indices().into_iter().map(|i| { let v: u32 = i.into(); v }).collect();
+                                let lemmas: Vec<Byte32> = fb.proof().lemmas().into_iter().collect();
+                                let cproof = ckb_types::utilities::MerkleProof::new(indices.clone(), lemmas);
+                                let ok = match cproof.root(&txs) {
+                                    Some(raw) => ckb_types::utilities::merkle_root(&[raw, fb.witnesses_root()]) == header.transactions_root(),
+                                    None => false,
+                                };
+                                if !ok {
+                                    out.oracle_fail("served-tx-proof-does-not-verify", line);
+                                }
+                                let mut want_idx: Vec<u32> = pos.iter().map(|p| (*p as u32) + all.len() as u32 - 1).collect();
+                                let mut got_idx = indices.clone();
+                                want_idx.sort();
+                                got_idx.sort();
+                                if want_idx != got_idx {
+                                    out.oracle_fail("tx-proof-indices-wrong", &format!("{line}: {got_idx:?} want {want_idx:?}"));
+                                }
+                                if all.len() > 1 { out.count("tp-multi-tx-block"); }
+                                served.extend(txs);
+                                leaves.push((leaf_index_to_pos(header.number()), header.digest()));
+                                blocks.push((header.number(), id, pos));
+                            }
+                            blocks.sort();
+                            // the partition of the request: every requested hash is either served in exactly one block or reported missing
+                            let missing: Vec<Byte32> = r.missing_tx_hashes().into_iter().collect();
+                            for h in &hashes {
+                                let a = served.iter().filter(|x| *x == h).count();
+                                let b = missing.iter().filter(|x| *x == h).count();
+                                if a + b != 1 {
+                                    out.oracle_fail("transactions-proof-partition-wrong", &format!("{line}: a hash served {a} times, missing {b} times"));
+                                }
+                            }
+                            if served.len() + missing.len() != hashes.len() {
+                                out.oracle_fail("transactions-proof-partition-wrong", &format!("{line}: {} served + {} missing of {}", served.len(), missing.len(), hashes.len()));
+                            }
+                            let items: Vec<HeaderDigest> = r.proof().into_iter().collect();
+                            let root = if n == 0 {
+                                if !blocks.is_empty() || !items.is_empty() || vh.parent_chain_root().as_slice() != HeaderDigest::default().as_slice() {
+                                    out.oracle_fail("genesis-reply-proves-something", line);
+                                }
+                                "-".to_string()
+                            } else {
+                                let want = self.expected_root(n - 1);
+                                if want.as_slice() != vh.parent_chain_root().as_slice() {
+                                    out.oracle_fail("root-not-mmr-root-of-ancestors", &format!("{line}: parent chain root of the last block"));
+                                }
+                                if !VerifiableHeader::from(vh.clone()).is_valid(0) {
+                                    out.oracle_fail("last-header-does-not-commit-root", line);
+                                }
+                                if !leaves.is_empty() {
+                                    leaves.sort_by_key(|x| x.0);
+                                    if !matches!(MMRProof::new(leaf_index_to_mmr_size(n - 1), items.clone()).verify(vh.parent_chain_root(), leaves.clone()), Ok(true)) {
+                                        out.oracle_fail("served-proof-does-not-verify", line);
+                                    }
+                                    for other in self.abandoned_roots(n - 1, &vh.parent_chain_root()) {
+                                        out.count("tp-checked-against-abandoned-root");
+                                        if matches!(MMRProof::new(leaf_index_to_mmr_size(n - 1), items.clone()).verify(other, leaves.clone()), Ok(true)) {
+                                            out.oracle_fail("proof-accepted-for-abandoned-chain", line);
+                                        }
+                                    }
+                                }
+                                term_of(&vh.parent_chain_root())
+                            };
+                            if !blocks.is_empty() { out.count("tp-proof-with-blocks"); }
+                            let bl: Vec<String> = blocks.iter().map(|(_, id, pos)| format!("{id}:{}", join(pos, ","))).collect();
+                            format!("proof {} root {root} blocks={} missing={}", join(&items.iter().map(term_of).collect::<Vec<_>>(), ";"), join(&bl, "/"), missing.len())
                         }
                         _ => "unexpected-reply".to_string(),
                     }
@@ -839,7 +1010,28 @@ impl NSim {
                 }
                 ans
             }
+            "tdinfo" => {
+                let d0 = self.genesis_td();
+                assert_eq!(d0.to_string(), t[1], "replayed tdinfo differs from the node's genesis difficulty");
+                self.td_emitted = true;
+                "ok".to_string()
+            }
             "lsp" => {
+                if !self.td_emitted {
+                    // the model computes the sampling itself: it needs the total difficulties of the main chain
+                    // (permanent difficulty, no uncles: block n has (n + 1) * d0)
+                    let d0 = self.genesis_td();
+                    out.op(&format!("tdinfo {d0}"), "ok");
+                    self.td_emitted = true;
+                }
+                {
+                    let d0 = self.genesis_td();
+                    let snap = self.node().shared.snapshot();
+                    for n in 0..=snap.tip_header().number() {
+                        let ext = snap.get_block_ext(&snap.get_block_hash(n).expect("index")).expect("ext");
+                        assert_eq!(ext.total_difficulty, ckb_types::U256::from((n + 1) * d0), "harness assumption: total difficulty of main-chain block {n} = (n+1)*d0");
+                    }
+                }
                 let (kind, numbers, detail) = self.lsp_call(out, &t[1..7], line);
                 assert_eq!(kind, t[7], "replayed lsp outcome differs from the recorded one");
                 assert_eq!(join(&numbers, ","), t[8], "replayed lsp headers differ from the recorded ones");
@@ -966,6 +1158,32 @@ impl NSim {
             numbers.push(hv.number());
             leaves.push((leaf_index_to_pos(hv.number()), hv.digest()));
         }
+        // the sampling contract, on the served numbers alone (independent of the model): strictly increasing and below the
+        // last block; every block of the last-n window [max(start, last - last_n), last) is served; when the client's start
+        // block is not on this chain (start hash differs from the main chain's block at start_number), the last_n blocks
+        // before start_number are served too (so the client can find the fork point)
+        if !numbers.windows(2).all(|w| w[0] < w[1]) || numbers.iter().any(|x| *x >= n) {
+            out.oracle_fail("lsp-numbers-not-increasing-below-last", &format!("{line}: {numbers:?}"));
+        }
+        if start_num <= n {
+            for k in start_num.max(n.saturating_sub(last_n))..n {
+                if !numbers.contains(&k) {
+                    out.oracle_fail("lsp-last-n-block-not-served", &format!("{line}: block {k} not in {numbers:?}"));
+                }
+            }
+            let start_on_chain = start_num == 0 || main_all.get(start_num as usize) == Some(&start);
+            if !start_on_chain {
+                out.count("lsp-reorg-detected");
+                for k in start_num - start_num.min(last_n)..start_num {
+                    if !numbers.contains(&k) {
+                        out.oracle_fail("lsp-reorg-block-not-served", &format!("{line}: block {k} not in {numbers:?}"));
+                    }
+                }
+            }
+        }
+        if numbers.iter().any(|x| *x < start_num.saturating_sub(last_n)) {
+            out.oracle_fail("lsp-block-before-window-served", &format!("{line}: {numbers:?}"));
+        }
         let items: Vec<HeaderDigest> = r.proof().into_iter().collect();
         if !leaves.is_empty() {
             let mut l2 = leaves.clone();
@@ -981,8 +1199,16 @@ impl NSim {
                 }
             }
         }
-        let detail = format!("proof {} root {} roots={}", join(&items.iter().map(term_of).collect::<Vec<_>>(), ";"), term_of(&vh.parent_chain_root()), join(&roots, ";"));
+        let detail = format!("proof {} root {} roots={} numbers={}", join(&items.iter().map(term_of).collect::<Vec<_>>(), ";"), term_of(&vh.parent_chain_root()), join(&roots, ";"), join(&numbers, ","));
         ("proof".into(), numbers, detail)
+    }
+
+    /// total difficulty of the genesis block (low 64 bits; the dev chain's difficulty is tiny)
+    fn genesis_td(&self) -> u64 {
+        let h = self.blocks[&0].hash();
+        let td = self.node().store().get_block_ext(&h).expect("genesis ext").total_difficulty;
+        assert!(td.0[1..].iter().all(|w| *w == 0));
+        td.0[0]
     }
 
     fn root_line(&mut self, out: &mut Out, line: &str, n: u64) -> String {
@@ -1216,25 +1442,105 @@ impl Drv {
     }
 
     fn lsp(&mut self, out: &mut Out, rng: &mut Rng, last: u64, sn: u64) {
+        self.lsp_with(out, rng, last, sn, None)
+    }
+
+    /// a GetLastStateProof as a light client sends it: start <= last, samples between the start block's total difficulty and
+    /// the boundary; the boundary is the total difficulty of a block (the `Equal` exit of the server's binary search) or one
+    /// off it; `start_id` = Some(block of an abandoned branch) is a client that followed the other branch (fork detection)
+    fn lsp_with(&mut self, out: &mut Out, rng: &mut Rng, last: u64, sn: u64, start_id: Option<u64>) {
         let main_all = self.main_all();
         let ln = last % 10000;
         let on_main = main_all.contains(&last);
         let (start, boundary, diffs) = if on_main && ln > 0 {
             let sn = sn.min(ln);
             let lo = if sn == 0 { 0 } else { td_of(&self.sim, sn - 1) };
-            let b = td_of(&self.sim, rng.range(sn, ln));
-            let mut d: Vec<u64> = (0..rng.below(5)).map(|_| rng.range(lo + 1, b.max(lo + 2))).filter(|x| *x < b).collect();
+            let b0 = td_of(&self.sim, rng.range(sn, ln));
+            let b = match rng.below(4) { 0 => b0.saturating_sub(1).max(lo + 1), 1 => b0 + 1, _ => b0 };
+            let mut d: Vec<u64> = (0..rng.below(6)).map(|_| rng.range(lo + 1, b.max(lo + 2))).filter(|x| *x < b).collect();
             d.sort();
             d.dedup();
-            (main_all[sn as usize], b, d)
+            (start_id.unwrap_or(main_all[sn as usize]), b, d)
         } else {
             (0, 0, vec![])
         };
         let sn = if on_main { sn.min(ln) } else { 0 };
-        let params = format!("{last} {start} {sn} {} {boundary} {}", rng.range(1, 6), join(&diffs, ","));
+        let last_n = match rng.below(8) { 0 => 0, 1 => ln + 1, _ => rng.range(1, 6) };
+        let params = format!("{last} {start} {sn} {last_n} {boundary} {}", join(&diffs, ","));
         let toks: Vec<&str> = params.split(' ').collect();
         let (kind, numbers, _) = self.sim.lsp_call(&mut Out::new(&out.dir.join("probe")), &toks, "probe");
         self.sim.exec(out, &format!("lsp {params} {kind} {}", join(&numbers, ",")));
+    }
+
+    /// GetTransactionsProof requests around the fork point: cellbases of main-chain heights below / at / above the last block,
+    /// genesis transactions (a block with many transactions: real CBMT lemmas), unknown hashes, duplicates, genesis as last,
+    /// a last block of the abandoned branch, the size limit
+    fn tp(&mut self, out: &mut Out, rng: &mut Rng, fork: u64) {
+        let main_all = self.main_all();
+        let tip = self.tipn();
+        let tip_id = *main_all.last().unwrap();
+        let gtx = self.sim.blocks[&0].transactions().len() as u64;
+        let cb = |n: u64| 1000 + n;
+        if tip == 0 {
+            return;
+        }
+        // everything provable under the tip: heights spanning the fork point + genesis transactions
+        let mut v: Vec<u64> = [fork.saturating_sub(1), fork, fork + 1, tip - 1].iter().filter(|n| **n >= 1 && **n < tip).map(|n| cb(*n)).collect();
+        v.push(rng.below(gtx));
+        v.push(rng.below(gtx));
+        v.push(gtx - 1);
+        v.push(1_000_000 + rng.below(1000));
+        v.sort();
+        v.dedup();
+        rng.shuffle(&mut v);
+        self.sim.exec(out, &format!("tp {tip_id} {}", join(&v, ",")));
+        // an earlier last block; heights at and above it are on the main chain but outside its MMR
+        let ln = rng.range(1, tip);
+        let mut w: Vec<u64> = (0..rng.range(1, 4)).map(|_| cb(rng.range(1, tip + 1))).collect();
+        w.push(rng.below(gtx));
+        w.sort();
+        w.dedup();
+        self.sim.exec(out, &format!("tp {} {}", main_all[ln as usize], join(&w, ",")));
+        let below: Vec<u64> = (1..ln).map(cb).chain([0u64, 1]).collect();
+        self.sim.exec(out, &format!("tp {} {}", main_all[ln as usize], join(&below, ",")));
+        match rng.below(6) {
+            0 => self.sim.exec(out, &format!("tp {tip_id} -")),
+            1 => self.sim.exec(out, &format!("tp {tip_id} {},{},{}", cb(1), 3, cb(1))),
+            2 => self.sim.exec(out, &format!("tp 0 {}", 1_000_007)),
+            3 => self.sim.exec(out, &format!("tp 0 {},{}", 1_000_007, rng.below(gtx))),
+            4 => self.sim.exec(out, &format!("tp {tip_id} {},{}", 1_000_001, 1_000_002)),
+            _ => self.sim.exec(out, &format!("tp {tip_id} {}", cb(tip + 1))),
+        }
+        let gone: Vec<u64> = self.sim.abandoned.iter().rev().flat_map(|c| c.iter().copied()).filter(|i| !main_all.contains(i)).take(1).collect();
+        if let Some(g) = gone.first() {
+            self.sim.exec(out, &format!("tp {g} {}", cb(1)));
+        }
+    }
+
+    /// the request-size limits of the light-client server at their boundaries (GET_BLOCKS_PROOF_LIMIT,
+    /// GET_LAST_STATE_PROOF_LIMIT: difficulties + 2 * last_n)
+    fn limits(&mut self, out: &mut Out) {
+        let tip_id = *self.main_all().last().unwrap();
+        let tipn = self.tipn();
+        if tipn == 0 {
+            return;
+        }
+        let unknown = |k: u64| -> Vec<u64> { (0..k).map(|i| 777_700_000 + i).collect() };
+        self.sim.exec(out, &format!("bp {tip_id} {}", join(&unknown(1000), ",")));
+        self.sim.exec(out, &format!("bp {tip_id} {}", join(&unknown(1001), ",")));
+        out.count("limit-boundary");
+        let unknown_tx = |k: u64| -> Vec<u64> { (0..k).map(|i| 1_000_000 + i).collect() };
+        self.sim.exec(out, &format!("tp {tip_id} {}", join(&unknown_tx(1000), ",")));
+        self.sim.exec(out, &format!("tp {tip_id} {}", join(&unknown_tx(1001), ",")));
+        let b = td_of(&self.sim, tipn - 1);
+        for (last_n, nd) in [(500u64, 0u64), (500, 1), (499, 2), (499, 3), (1000, 0), (1001, 0), (u64::MAX, 0), (u64::MAX / 2 + 1, 0)] {
+            // difficulties strictly increasing and below the boundary when there is room for them
+            let diffs: Vec<u64> = (1..=nd).filter(|d| *d < b).collect();
+            let params = format!("{tip_id} 0 0 {last_n} {b} {}", join(&diffs, ","));
+            let toks: Vec<&str> = params.split(' ').collect();
+            let (kind, numbers, _) = self.sim.lsp_call(&mut Out::new(&out.dir.join("probe")), &toks, "probe");
+            self.sim.exec(out, &format!("lsp {params} {kind} {}", join(&numbers, ",")));
+        }
     }
 
     /// everything that is observed after one step of a scenario; `fork` = number of the last common block of the step
@@ -1284,7 +1590,13 @@ impl Drv {
             self.sim.exec(out, &format!("bp {} {}", gone_ids[0], main_all[fork as usize]));
             out.count("bp-last-abandoned");
             self.lsp(out, rng, gone_ids[0], 0);
+            // a client that followed the abandoned branch asks about the new tip: its start block is not on this chain
+            for g in gone_ids.iter().copied().filter(|g| g % 10000 <= tip).take(2) {
+                self.lsp_with(out, rng, tip_id, g % 10000, Some(g));
+                out.count("lsp-start-on-abandoned-branch");
+            }
         }
+        self.tp(out, rng, fork);
         self.lsp(out, rng, tip_id, fork.saturating_sub(1));
         let sn = rng.below(tip + 1);
         self.lsp(out, rng, tip_id, sn);
@@ -1472,6 +1784,7 @@ fn gen_xblk_case(out: &mut Out, rng: &mut Rng, base: &std::path::Path, variant: 
         out.count("reorg-over-conforming-xblk");
         d.checks(out, rng, f, true);
     }
+    d.limits(out);
     out.nontrivial(format!("xblk:{epoch_len}:{:?}", d.sim.main));
     d.sim.finish();
 }
